@@ -1,0 +1,117 @@
+//go:build verif
+
+package iobroker
+
+/*
+ * verif_on.go
+ * Verification hooks, enabled with -tags verif
+ *
+ * Nothing in here changes what the broker does.  A harness may install
+ * VerifHook to observe (and, by blocking, to schedule) the points of
+ * Broker.connect named below.
+ */
+
+import (
+	"context"
+	"strings"
+	"sync/atomic"
+)
+
+// VerifState is a snapshot of the broker's admission state.  It is only
+// filled in at points reached while b.mu is held.
+type VerifState struct {
+	Seq    uint64 /* Stamp, incremented under b.mu. */
+	Key    string /* b.key; the bidirectional sentinel is mapped to BIDIR. */
+	In     bool   /* nil != b.cancelIn */
+	Out    bool   /* nil != b.cancelOut */
+	NoMore bool   /* b.noMore */
+	Locked bool   /* Snapshot was taken with b.mu held. */
+}
+
+// VerifHook, if not nil, is called at the following points of connect:
+//
+//	admit     before the first Lock (may block: scheduler gate)
+//	locked    just after the first Lock (b.mu held)
+//	leave     at every return path, before the deferred Unlock (b.mu held)
+//	attached  after an acceptance, before the manual Unlock (b.mu held)
+//	unlocked  after the manual Unlock
+//	release   before the second Lock (may block: scheduler gate)
+//	relocked  just after the second Lock (b.mu held)
+//	done      after the deferred Unlock
+//
+// It must be set before any broker is used and not changed afterwards.
+var VerifHook func(
+	ctx context.Context,
+	b *Broker,
+	point string,
+	dir string,
+	key string,
+	st VerifState,
+)
+
+// verifTok remembers who is connecting.
+type verifTok struct {
+	ctx context.Context
+	b   *Broker
+	dir string
+	key string
+}
+
+// verifKey maps the bidirectional sentinel (plus any per-request suffix) to
+// a printable word.
+func (b *Broker) verifKey(key string) string {
+	if "" != b.bidirKey && strings.HasPrefix(key, b.bidirKey) {
+		return "BIDIR" + key[len(b.bidirKey):]
+	}
+	return key
+}
+
+// verifStart notes the start of connect.
+func (b *Broker) verifStart(
+	ctx context.Context,
+	dir sDirection,
+	key string,
+) verifTok {
+	vt := verifTok{ctx: ctx, b: b, dir: string(dir), key: b.verifKey(key)}
+	vt.at("admit")
+	return vt
+}
+
+// verifSeq is the stamp counter.  It is only incremented while some broker's
+// mu is held, so stamps of one broker are ordered as its critical sections.
+var verifSeq atomic.Uint64
+
+// at reports reaching the named point.
+func (vt verifTok) at(point string) {
+	h := VerifHook
+	if nil == h || nil == vt.b {
+		return
+	}
+	var st VerifState
+	switch point {
+	case "locked", "leave", "attached", "relocked":
+		/* b.mu is held by our caller. */
+		st = VerifState{
+			Seq:    verifSeq.Add(1),
+			Key:    vt.b.verifKey(vt.b.key),
+			In:     nil != vt.b.cancelIn,
+			Out:    nil != vt.b.cancelOut,
+			NoMore: vt.b.noMore,
+			Locked: true,
+		}
+	}
+	h(vt.ctx, vt.b, point, vt.dir, vt.key, st)
+}
+
+// VerifSnapshot returns the broker's admission state.  It takes b.mu.
+func (b *Broker) VerifSnapshot() VerifState {
+	b.mu.Lock()
+	defer b.mu.Unlock()
+	return VerifState{
+		Key:    b.verifKey(b.key),
+		In:     nil != b.cancelIn,
+		Out:    nil != b.cancelOut,
+		NoMore: b.noMore,
+		Locked: true,
+	}
+}
